@@ -1,0 +1,71 @@
+//go:build verif
+
+// Verification hooks: exported views of unexported state and helpers. Compiled only
+// with -tags verif; adds code, changes none.
+package type3
+
+import (
+	"crypto/elliptic"
+	"crypto/rsa"
+)
+
+func VerifPadOriginName(originName string) []byte         { return padOriginName(originName) }
+func VerifUnpadOriginName(paddedOriginName []byte) string { return unpadOriginName(paddedOriginName) }
+
+func VerifNewInner(tokenKeyID uint8, blindedMsg, paddedOrigin []byte) *InnerTokenRequest {
+	return &InnerTokenRequest{tokenKeyId: tokenKeyID, blindedMsg: blindedMsg, paddedOrigin: paddedOrigin}
+}
+
+func (r *InnerTokenRequest) VerifFields() (uint8, []byte, []byte) {
+	return r.tokenKeyId, r.blindedMsg, r.paddedOrigin
+}
+
+// VerifSnapshot returns copies of the three bookkeeping maps of a client state.
+func (s *ClientState) VerifSnapshot() (originIndices, clientIndices map[string]string, originCounts map[string]int) {
+	originIndices = make(map[string]string, len(s.originIndices))
+	for k, v := range s.originIndices {
+		originIndices[k] = v
+	}
+	clientIndices = make(map[string]string, len(s.clientIndices))
+	for k, v := range s.clientIndices {
+		clientIndices[k] = v
+	}
+	originCounts = make(map[string]int, len(s.originCounts))
+	for k, v := range s.originCounts {
+		originCounts[k] = v
+	}
+	return
+}
+
+func VerifComputeIndex(clientKey, indexKey []byte) ([]byte, error) {
+	return computeIndex(clientKey, indexKey)
+}
+
+// VerifNewIssuerWithNameKey builds an issuer with a caller-chosen name key so that replays are deterministic.
+func VerifNewIssuerWithNameKey(key *rsa.PrivateKey, nameKey PrivateEncapKey) *RateLimitedIssuer {
+	i := NewRateLimitedIssuer(key)
+	i.nameKey = nameKey
+	return i
+}
+
+func (i *RateLimitedIssuer) VerifNameKey() PrivateEncapKey { return i.nameKey }
+
+func (k EncapKey) VerifFields() (id uint8, kem, kdf, aead uint16, pk []byte) {
+	return k.id, uint16(k.suite.KEM.ID()), uint16(k.suite.KDF.ID()), uint16(k.suite.AEAD.ID()), k.suite.KEM.SerializePublicKey(k.publicKey)
+}
+
+func VerifDecryptOriginTokenRequest(nameKey PrivateEncapKey, requestKey, encryptedTokenRequest []byte) (InnerTokenRequest, []byte, error) {
+	return decryptOriginTokenRequest(nameKey, requestKey, encryptedTokenRequest)
+}
+
+func VerifEncryptOriginTokenRequest(nameKey EncapKey, tokenKeyID uint8, blindedMessage, requestKey []byte, originName string) ([]byte, []byte, []byte, error) {
+	return encryptOriginTokenRequest(nameKey, tokenKeyID, blindedMessage, requestKey, originName)
+}
+
+func VerifUnmarshalPublicKey(encodedKey []byte) (x, y []byte, err error) {
+	pk, err := unmarshalPublicKey(elliptic.P384(), encodedKey)
+	if err != nil {
+		return nil, nil, err
+	}
+	return pk.X.Bytes(), pk.Y.Bytes(), nil
+}
